@@ -27,6 +27,18 @@ int main(int argc, char **argv) {
         if (!strcmp(mode, "empty")) { return 0; }
         if (!strcmp(mode, "kill")) { raise(SIGKILL); return 137; }
         if (!strcmp(mode, "silent1")) { return 1; }
+        /* git "succeeds" with content of the right kind but hostile value */
+        if (!strcmp(mode, "neg")) { puts("-1"); return 0; }
+        if (!strcmp(mode, "huge")) { puts("99999999999999999999"); return 0; }
+        if (!strcmp(mode, "i64max")) { puts("9223372036854775807"); return 0; }
+        if (!strcmp(mode, "u32over")) { puts("4294967296"); return 0; }
+        if (!strcmp(mode, "zero")) { puts("0"); return 0; }
+        if (!strcmp(mode, "blank")) { puts("   "); return 0; }
+        if (!strcmp(mode, "twolines")) { puts("0123456789abcdef0123456789abcdef01234567\nfedcba9876543210fedcba9876543210fedcba98"); return 0; }
+        if (!strcmp(mode, "nonutf8name")) { fwrite("v1.0.0\xff\nv\xc3\x28\n", 1, 11, stdout); return 0; }
+        if (!strcmp(mode, "longline")) { for (int i = 0; i < 200000; i++) putchar('a'); putchar('\n'); return 0; }
+        if (!strcmp(mode, "tagish")) { puts("v1.2.3\nv9.9.9-rc.1\n1.0.0\nnot-a-version"); return 0; }
+        if (!strcmp(mode, "stderr0")) { fprintf(stderr, "warning: something odd\n"); puts("main"); return 0; }
     }
     argv[0] = (char *)real;
     execv(real, argv);
